@@ -19,8 +19,12 @@ pub fn start_inital_election(dbs: Arc<Databases>) {
 
 pub fn start_election(dbs: &Arc<Databases>) {
     log::info!("Will start election");
+    #[cfg(feature = "verif")]
+    crate::verif::point("election:start");
     if dbs.count_cluster_members() <= 1 {
         log::info!("Only one node in the cluster, will set as primary");
+        #[cfg(feature = "verif")]
+        crate::verif::point("election_win:single_node");
         election_win(dbs);
         return;
     }
@@ -37,6 +41,8 @@ pub fn start_election(dbs: &Arc<Databases>) {
              */
             while opp.is_none() && start_time < *NUN_ELECTION_TIMEOUT {
                 log::debug!("Waiting for opp to be registered");
+                #[cfg(feature = "verif")]
+                crate::verif::point("election:wait_registered");
                 thread::sleep(time::Duration::from_millis(2));
                 start_time = start_time + 2;
                 opp = dbs.get_pending_opp_copy(id);
@@ -44,6 +50,8 @@ pub fn start_election(dbs: &Arc<Databases>) {
 
             if opp.is_none() {
                 log::debug!("No opp registered, will set as primary");
+                #[cfg(feature = "verif")]
+                crate::verif::point("election_win:not_registered");
                 election_win(dbs);
                 return;
             }
@@ -56,6 +64,8 @@ pub fn start_election(dbs: &Arc<Databases>) {
                     log::info!("No longer eligible to be primary, will stop election");
                     return;
                 }
+                #[cfg(feature = "verif")]
+                crate::verif::point("election:wait_acks");
                 thread::sleep(time::Duration::from_millis(2));
                 start_time = start_time + 2;
                 opp = dbs.get_pending_opp_copy(id);
@@ -72,6 +82,8 @@ pub fn start_election(dbs: &Arc<Databases>) {
                 opp = dbs.get_pending_opp_copy(id);
                 if start_time > *NUN_ELECTION_TIMEOUT {
                     log::info!("Election timeout, will claim as primary");
+                    #[cfg(feature = "verif")]
+                    crate::verif::point("election_win:timeout");
                     election_win(&dbs);
                     return;
                 }
@@ -79,9 +91,13 @@ pub fn start_election(dbs: &Arc<Databases>) {
 
             log::info!("Election acks received");
 
+            #[cfg(feature = "verif")]
+            crate::verif::point("election:settle");
             thread::sleep(time::Duration::from_millis(100)); // Will wait for the ack
             if dbs.is_eligible() {
                 log::info!("winning the election");
+                #[cfg(feature = "verif")]
+                crate::verif::point("election_win:all_acks");
                 election_win(&dbs);
             }
         }
